@@ -38,8 +38,10 @@ def parse_observe(line):
     return units, classes, order
 
 
-def gen_history_case(rng, length, with_invalid=True, queries=True, refless_script=False):
-    g = HistGen(rng, with_invalid=with_invalid, refless_derived=.3, split_items=.4)
+def gen_history_case(rng, length, with_invalid=True, queries=True, refless_script=False,
+                     undefined_units=0.0, undefined_multiples=False):
+    g = HistGen(rng, with_invalid=with_invalid, refless_derived=.3, split_items=.4,
+                undefined_units=undefined_units, undefined_multiples=undefined_multiples)
     steps = g.history(length, refless_script=refless_script)
     ops, meta = [["observe"]], [dict(kind="observe0")]
     for st in steps:
@@ -57,6 +59,17 @@ def gen_history_case(rng, length, with_invalid=True, queries=True, refless_scrip
             if ref is not None and u["scale"] is not None and w.classes[u["cls"]]["quantum"] is None:
                 ops.append(["q_conv", "1@" + sym, ref, MODE])
                 meta.append(dict(kind="q_conv_ref", sym=sym))
+        # a unit declared WITHOUT definition in a type that has a reference
+        # unit has no scale: it converts to nothing (UnitConversionError, not
+        # an AssertionError) and equals itself only
+        for sym, u in w.units.items():
+            ref = w.classes[u["cls"]]["ref"]
+            if u.get("undefined") and ref is not None:
+                for a, b in ((sym, ref), (ref, sym)):
+                    ops.append(["q_conv", "1@" + a, b, MODE])
+                    meta.append(dict(kind="q_conv_undef", sym=a, to=b))
+                    ops.append(["ueq", a, b]); meta.append(dict(kind="ueq_undef", sym=a, to=b))
+                ops.append(["ueq", sym, sym]); meta.append(dict(kind="ueq_self", sym=sym))
         # pairs of units of one type (neither need be the reference unit):
         # the factor is the ratio of the two scales, an exact rational
         for n, c in w.classes.items():
@@ -142,6 +155,18 @@ def directory_oracle(case, impl, check_trace=True, check_dir=True):
             if out != want:
                 fails.append({"site": "dir:convert-pair", "msg":
                               f"1 {m['sym']} -> {out}, expected {want}"})
+        elif k == "q_conv_undef":
+            if out != "err UnitConversionError":
+                fails.append({"site": "dir:undefined-unit-converts", "msg":
+                              f"1 {m['sym']} -> {m['to']}: {out}, expected UnitConversionError"})
+        elif k == "ueq_undef":
+            if out != "ok false":
+                fails.append({"site": "dir:undefined-unit-equal", "msg":
+                              f"{m['sym']} == {m['to']}: {out}"})
+        elif k == "ueq_self":
+            if out != "ok true":
+                fails.append({"site": "dir:undefined-unit-equal", "msg":
+                              f"{m['sym']} == {m['sym']}: {out}"})
         elif k == "unknown_sym":
             if out != "err ValueError":
                 fails.append({"site": "reject:symbol-known", "msg":
